@@ -385,39 +385,52 @@ def body(ctx, H, prim):
     if prim == "same_seed":
         seed = H.draw(10**6)
         twin_kind = H.pick(["native", "native", "ge", "sge", "stack"])
+        same_list = False
         if twin_kind == "native":
             a, b2 = NativeRandomSource(seed), NativeRandomSource(seed)
         else:
-            # twin sources reading the same genes are the same stream too (that is what makes a genotype denote one program)
+            # twin sources reading the same genes are the same stream too (that is what makes a genotype denote one program);
+            # the second one may be handed the very same gene list object, as happens when one genotype is mapped twice
             from geneticengine.representations.grammatical_evolution.ge import ListWrapper as GEW
             from geneticengine.representations.grammatical_evolution.structured_ge import StructuredListWrapper as SGW, INFRASTRUCTURE_KEY
             from geneticengine.representations.stackgggp import ListWrapper as STW
 
             dna = gene_list(H)
-            mk = {"ge": lambda: GEW(list(dna)), "stack": lambda: STW(list(dna)), "sge": lambda: SGW({INFRASTRUCTURE_KEY: list(dna), "other": [1, 2, 3]})}[twin_kind]
-            a, b2 = mk(), mk()
-        ctx.sample.update({"twin_sources": twin_kind})
+            same_list = bool(H.draw(2))
+            second = dna if same_list else list(dna)
+            mk = {"ge": lambda d: GEW(d), "stack": lambda d: STW(d), "sge": lambda d: SGW({INFRASTRUCTURE_KEY: d, "other": [1, 2, 3]})}[twin_kind]
+            a, b2 = mk(dna), mk(second)
+        ctx.sample.update({"twin_sources": twin_kind, "same_gene_list_object": same_list})
         # a third, unrelated source is used in between (history: nothing of it may show in the twins)
         third = NativeRandomSource(seed + 1) if H.draw(2) else SimRandom(ctx, "uniform", name="third", log=False)
         ctx.nontrivial = True
-        for _ in range(20):
-            op = H.draw(5)
-            lo, hi = H.pick(BOUNDS)
-            if H.draw(3) == 0:
-                third.normalvariate(0, 1)
-                third.randint(0, 9)
-                ctx.faults["carry_over"] += 1
-            if op == 0:
-                x, y = a.randint(lo, hi), b2.randint(lo, hi)
-            elif op == 1:
-                x, y = a.random_float(float(lo), float(hi)), b2.random_float(float(lo), float(hi))
-            elif op == 2:
-                x, y = a.normalvariate(0, 1), b2.normalvariate(0, 1)
-            elif op == 3:
-                x, y = a.shuffle(list(range(6))), b2.shuffle(list(range(6)))
-            else:
-                x, y = a.choice_weighted([1, 2, 3], [1, 2, 3]), b2.choice_weighted([1, 2, 3], [1, 2, 3])
+        script = [(H.draw(5), H.pick(BOUNDS), H.draw(3) == 0) for _ in range(20)]
+
+        def play(src):
+            out = []
+            for op, (lo, hi), interfere in script:
+                if interfere:
+                    third.normalvariate(0, 1)
+                    third.randint(0, 9)
+                if op == 0:
+                    out.append(src.randint(lo, hi))
+                elif op == 1:
+                    out.append(src.random_float(float(lo), float(hi)))
+                elif op == 2:
+                    out.append(src.normalvariate(0, 1))
+                elif op == 3:
+                    out.append(src.shuffle(list(range(6))))
+                else:
+                    out.append(src.choice_weighted([1, 2, 3], [1, 2, 3]))
+            return out
+
+        xs = play(a)  # the first source plays the whole script, then its twin does
+        ctx.faults["carry_over"] += 1
+        ys = play(b2)
+        for k, (x, y) in enumerate(zip(xs, ys)):
             if x != y:
-                ctx.violate(f"C18/same-seed-different-stream/{twin_kind}", f"two {twin_kind} sources built from the same seed / genes diverged: {x!r} vs {y!r}")
+                ctx.violate(f"C18/same-seed-different-stream/{twin_kind}",
+                            f"two {twin_kind} sources built from the same seed / genes{' (same list object)' if same_list else ''} diverged at draw {k}: {x!r} vs {y!r}")
                 return
+        return
         return
